@@ -109,7 +109,9 @@ func c07envs(states []string) []c07env {
 }
 
 // c07check compares the implementation with the reference on one template.
-func c07check(t string, e c07env, strictValue bool) core.Outcome { return c07checkVia(t, e, strictValue, 0) }
+func c07check(t string, e c07env, strictValue bool) core.Outcome {
+	return c07checkVia(t, e, strictValue, 0)
+}
 
 // c07entries: the public substitution functions, all held to the same reference (default pattern, default operators).
 var c07entries = []string{"Substitute", "SubstituteWith", "SubstituteWithOptions"}
